@@ -2,6 +2,7 @@
     input (ground or not), every state, every system, every fuel. *)
 From Coq Require Import Lia.
 From Verif Require Import Json Outcome Match PatIndex State Location SysOps Query QueryOps Events.
+From Verif Require CascadeTerm.
 From Verif Require Import StateSpec MatchLemmas1 AssocLemmas CascadeLemmas1 GateProofs
   LocSpec LocBasics LocWalk LocProofs QueryProofs TotalSpec TotalMatch TotalQuery TotalState TotalSys.
 
@@ -17,14 +18,17 @@ Proof. destruct o; reflexivity. Qed.
 (** * State *)
 
 Lemma st_search_opanic s p now : opanic (snd (st_search s p now)) = false.
-Proof. apply opanic_npo. exact (search_state_npo st_rem_rec s p now). Qed.
+Proof.
+  unfold st_search. rewrite (CascadeTerm.snd_with_purge (search_state s p now) now).
+  apply opanic_npo. exact (search_state_npo s p now).
+Qed.
 
 Lemma find_ids_lin_opanic ev now : forall ids s acc, opanic (snd (find_ids_lin s ids ev now acc)) = false.
 Proof.
   induction ids as [|id r IH]; intros s acc; cbn [find_ids_lin]; [reflexivity|].
   destruct (alookup id (st_facts s)) as [fact|]; [|apply IH].
   destruct (jget "rule" fact) as [rule|]; [|apply IH].
-  destruct (expire st_rem_rec s id fact now) as [[s1 ex] err]. destruct err; [reflexivity|]. destruct ex; [apply IH|].
+  destruct (expire s id fact now) as [s1 ex]. destruct ex; [apply IH|].
   destruct rule as [| | | | |rm]; try apply IH.
   destruct (alookup "when" rm) as [[| | | | |w]|]; try apply IH.
   match goal with |- context [core_match ?p ev []] =>
@@ -35,15 +39,13 @@ Qed.
 Lemma st_find_rules_opanic s ev now : opanic (snd (st_find_rules s ev now)) = false.
 Proof.
   unfold st_find_rules.
-  match goal with
-  | |- opanic (snd (let '(a, b) := ?X in _)) = false =>
-      assert (H : opanic (snd X) = false); [|destruct X as [s1 res]]
-  end.
-  { destruct (st_kind s).
+  assert (H : opanic (snd (do_find_rules s ev now)) = false).
+  { unfold do_find_rules. rewrite CascadeTerm.snd_with_purge. destruct (st_kind s).
     - pose proof (pi_search_obad (st_pindex s) ev) as Hp.
       destruct (pi_search (st_pindex s) ev); cbn in Hp; try discriminate; try reflexivity.
       apply obad_opanic. apply find_ids_idx_obad.
     - apply find_ids_lin_opanic. }
+  destruct (do_find_rules s ev now) as [s1 res].
   cbn [snd] in H. destruct res as [l|e|w|]; cbn in H; try discriminate; reflexivity.
 Qed.
 
